@@ -409,8 +409,36 @@ def agent_intake_part(ctx, rp):
                    'agent owns enters the pipeline exactly once (%d bulks)' % n, 'tie', True, '')
 
 
+def notes_part(ctx, rp):
+    """the real BaseComponent.advance with publish=True on one thing: every state the thing can be in, with and without the
+    `$all` mark, the state handed to advance() or set on the thing by the caller; what is published is the whole thing or
+    uid / type / state only (model noteOf with the translated publishFinalByThing)"""
+    from radical.pilot.utils.component import AgentComponent
+    rps = rp.states
+    names = sorted([k for k, v in rps._task_state_values.items() if isinstance(k, str) and v >= 0], key=lambda k: (rps._task_state_values[k], k))
+    enc = lambda st: st if st in ('DONE', 'FAILED', 'CANCELED') else rps._task_state_values[st]
+    ops, impl = [], []
+    for st in names:
+        for all_ in (False, True):
+            for by_arg in (False, True):
+                bus = pipelib.Bus()
+                c = pipelib.wire(rp, object.__new__(AgentComponent), 'comp', bus)
+                thing = {'uid': 'task.000000', 'type': 'task', 'state': 'NEW' if by_arg else st, 'exit_code': 3, 'description': {}}
+                if all_: thing['$all'] = True
+                c.advance(thing, st if by_arg else None, publish=True, push=False)
+                pub = bus.updates[-1][1][0]
+                ops.append({'op': 'note', 'all': all_, 'arg': enc(st) if by_arg else None, 'thing': enc(st)})
+                impl.append({'state': enc(pub['state']), 'full': 'exit_code' in pub})
+                ctx.case(ops[-1], nontrivial=st in ('DONE', 'FAILED', 'CANCELED'))
+                if st in ('DONE', 'FAILED', 'CANCELED') and 'exit_code' not in pub:
+                    ctx.fail('advance:final-state-published-without-the-task', 'advance(thing in %s, state argument %s, $all %s) published %s'
+                             % (st, st if by_arg else None, all_, sorted(pub)), {'kind': 'note', 'state': st, 'all': all_, 'by_arg': by_arg})
+    common.compare(ctx, 'pipeline', ops, impl, what='real BaseComponent.advance: the notification of a thing in every state carries the whole thing or its state only (%d calls)' % len(ops))
+
+
 def run(ctx):
     rp  = rpload.load()
+    notes_part(ctx, rp)
     agent_intake_part(ctx, rp)
     rng = ctx.rng
     master_part(ctx, rp)
@@ -524,6 +552,16 @@ def replay(ctx, data):
             print('raised', repr(e)); return False
         print('handed on:', handed)
         return handed == [('task.%06d' % k, 'DONE' if c == 0 else 'FAILED') for k, c in enumerate(i['codes'])]
+    if i.get('kind') == 'note':
+        from radical.pilot.utils.component import AgentComponent
+        bus = pipelib.Bus()
+        c = pipelib.wire(rp, object.__new__(AgentComponent), 'comp', bus)
+        thing = {'uid': 'task.000000', 'type': 'task', 'state': 'NEW' if i['by_arg'] else i['state'], 'exit_code': 3, 'description': {}}
+        if i['all']: thing['$all'] = True
+        c.advance(thing, i['state'] if i['by_arg'] else None, publish=True, push=False)
+        pub = bus.updates[-1][1][0]
+        print(pub)
+        return 'exit_code' in pub
     if i.get('kind') == 'agent_intake':
         pushed, err = run_agent_intake(rp, i['bulk'])
         print(pushed, err)
